@@ -548,6 +548,123 @@ fn gen_apod(r: &mut Rng) -> Option<ApodD> {
   }
 }
 
+/// hand-made interpolation tables: the shapes real profiles have — runs of bit-equal neighbours
+/// (zero padding, flat tops, steps, staircases), constant / single-sample / empty tables, long
+/// sampled profiles, signed zeros — next to ramps and random tables without equal neighbours
+pub fn gen_interp_table(r: &mut Rng) -> (Vec<f64>, &'static str) {
+  let shape = r.below(14);
+  interp_table_of_shape(r, shape)
+}
+
+pub const INTERP_SHAPES: usize = 14;
+
+pub fn interp_table_of_shape(r: &mut Rng, shape: usize) -> (Vec<f64>, &'static str) {
+  match shape {
+    0 => (vec![], "empty"),
+    1 => (vec![dec(r, 0.0, 1.0, 3)], "single"),
+    2 => {
+      let n = r.between(2, 40);
+      (vec![*r.pick(&[0.0, 1.0, 0.5, 0.731]); n], "constant")
+    }
+    3 => {
+      // zero padding, ramp, flat top, ramp, zero padding
+      let (pad, top, ramp) = (r.between(1, 6), r.between(2, 12), r.between(0, 4));
+      let mut v = vec![0.0; pad];
+      for k in 0..ramp {
+        v.push(((k + 1) as f64 / (ramp + 1) as f64 * 1e3).round() / 1e3);
+      }
+      v.extend(vec![1.0; top]);
+      for k in (0..ramp).rev() {
+        v.push(((k + 1) as f64 / (ramp + 1) as f64 * 1e3).round() / 1e3);
+      }
+      v.extend(vec![0.0; pad]);
+      (v, "padded-flat-top")
+    }
+    4 => {
+      let (a, b) = (r.between(1, 8), r.between(1, 8));
+      let (lo, hi) = if r.coin() { (0.0, 1.0) } else { (1.0, 0.0) };
+      let mut v = vec![lo; a];
+      v.extend(vec![hi; b]);
+      (v, "step")
+    }
+    5 => {
+      let n = r.between(1, 5);
+      let mut v = vec![];
+      for _ in 0..n {
+        let x = dec(r, 0.0, 1.0, 3);
+        v.push(x);
+        v.push(x);
+      }
+      (v, "repeated-pairs")
+    }
+    6 => {
+      let n = r.between(2, 6);
+      let mut v = vec![];
+      for _ in 0..n {
+        let x = dec(r, 0.0, 1.0, 2);
+        for _ in 0..r.between(1, 4) {
+          v.push(x);
+        }
+      }
+      (v, "staircase")
+    }
+    7 => {
+      let n = r.between(2, 30);
+      ((0..n).map(|k| (k as f64 / (n - 1) as f64 * 1e4).round() / 1e4).collect(), "ramp")
+    }
+    8 => {
+      // random, one neighbouring pair forced equal
+      let n = r.between(3, 12);
+      let mut v: Vec<f64> = (0..n).map(|_| dec(r, 0.0, 1.0, 3)).collect();
+      let k = r.below(n - 1);
+      v[k + 1] = v[k];
+      (v, "random-one-equal-pair")
+    }
+    9 => {
+      // a sampled bell, clipped: long runs of zeros at both ends and of ones in the middle
+      let n = *r.pick(&[33usize, 64, 101, 256, 257]);
+      let w = r.range(0.15, 0.6);
+      let v = (0..n)
+        .map(|k| {
+          let z = -1.0 + 2.0 * k as f64 / (n - 1) as f64;
+          ((1.3 * (-0.5 * (z / w).powi(2)).exp() - 0.05).clamp(0.0, 1.0) * 1e2).round() / 1e2
+        })
+        .collect();
+      (v, "sampled-bell-clipped")
+    }
+    10 => (vec![0.0, -0.0, 0.0, 0.5, 1.0, 1.0, 0.5, -0.0, 0.0], "signed-zeros"),
+    11 => {
+      // palindrome with an equal centre pair
+      let n = r.between(1, 6);
+      let h: Vec<f64> = (0..n).map(|_| dec(r, 0.0, 1.0, 3)).collect();
+      let mut v = h.clone();
+      v.extend(h.iter().rev());
+      (v, "palindrome")
+    }
+    12 => {
+      // equal values that are NOT neighbours (and an alternating pattern)
+      let (a, b) = (dec(r, 0.0, 1.0, 3), dec(r, 0.0, 1.0, 3));
+      let n = r.between(3, 9);
+      ((0..n).map(|k| if k % 2 == 0 { a } else { b }).collect(), "alternating")
+    }
+    _ => {
+      let n = r.between(2, 12);
+      ((0..n).map(|_| dec(r, 0.0, 1.0, 3)).collect(), "random")
+    }
+  }
+}
+
+/// replace the apodization of a poled descriptor by a hand-made interpolation table
+pub fn structure_apod(r: &mut Rng, d: &mut Desc) -> Option<&'static str> {
+  if let PolingD::Cfg { apod, .. } = &mut d.poling {
+    let (v, shape) = gen_interp_table(r);
+    *apod = Some(ApodD::Interpolate(v));
+    Some(shape)
+  } else {
+    None
+  }
+}
+
 /// a mostly valid configuration: wavelengths inside the crystal's window, λs > λp
 pub fn gen_valid(r: &mut Rng) -> Desc {
   let kind = if r.below(3) == 0 { r.below(2) } else { r.below(11) };
@@ -809,6 +926,149 @@ pub fn gen_malformed(r: &mut Rng) -> (Desc, String) {
   tags.sort();
   tags.dedup();
   (d, tags.join("+"))
+}
+
+const ODD_SCALARS: [f64; 20] = [
+  -1e300, -1e6, -100.0, -1.0, -0.02, -1e-9, -0.0, 0.0, 1e-300, 1e-9, 1e-3, 0.5, 0.999, 1.0, 1.03, 2.0, 100.0, 1e6, 1e300, f64::MAX,
+];
+const APOD_NAMES_LOWER: [&str; 6] = ["bartlett", "blackman", "connes", "cosine", "hamming", "welch"];
+
+/// an apodization section (all nine kinds, both spellings) whose numbers lie OUTSIDE the usual range:
+/// negative, zero, above 1, in percent, huge, tiny; tables empty / single / long / un-normalised
+pub fn gen_odd_apod(r: &mut Rng) -> (ApodD, String) {
+  match r.below(12) {
+    0 => (ApodD::Off, "off".into()),
+    1 | 2 => {
+      let f = *r.pick(&ODD_SCALARS);
+      (ApodD::Gaussian(f), format!("gaussian/{:e}", f))
+    }
+    3 | 4 | 5 => {
+      let k = r.below(6);
+      let name = if r.coin() { APOD_NAMES[k] } else { APOD_NAMES_LOWER[k] };
+      let x = *r.pick(&ODD_SCALARS);
+      (ApodD::Named(name, x), format!("{}/{:e}", APOD_NAMES_LOWER[k], x))
+    }
+    _ => {
+      let (v, name): (Vec<f64>, &str) = match r.below(16) {
+        0 => ((0..=10).map(|k| 10.0 * k as f64).collect(), "percent-ramp"),
+        1 => (vec![0., 25., 50., 100., 100., 50., 25., 0.], "percent-bell"),
+        2 => (vec![0., 0.5, 1.03, 1.0, 0.5, 0.], "overshoot"),
+        3 => (vec![-0.02, 0., 0.5, 1., 0.5, 0., -0.02], "negative-side-lobes"),
+        4 => (vec![0., 0., 0.], "all-zero"),
+        5 => (vec![-1., -0.5, -1.], "all-negative"),
+        6 => (vec![-1., 1.], "net-zero"),
+        7 => (vec![1e300, 1e300], "huge"),
+        8 => (vec![1e308, -1e308, f64::MAX], "huge-mixed-signs"),
+        9 => (vec![1e-300, 5e-324, 1e-300], "tiny"),
+        10 => (vec![*r.pick(&ODD_SCALARS)], "single"),
+        11 => (vec![], "empty"),
+        12 => ((0..1000).map(|_| (r.range(-0.1, 1.1) * 1e3).round() / 1e3).collect(), "long-unnormalised"),
+        13 => (vec![1.0000000000000002, 1., 0.9999999999999999], "one-ulp-above-1"),
+        14 => (vec![-5e-324, 0., 1.], "one-ulp-below-0"),
+        _ => {
+          let n = r.between(1, 8);
+          ((0..n).map(|_| *r.pick(&ODD_SCALARS)).collect(), "random-odd")
+        }
+      };
+      (ApodD::Interpolate(v), format!("interpolate/{}", name))
+    }
+  }
+}
+
+/// one numeric leaf of a nested section set to a value outside its usual range (negative, zero, above 1,
+/// huge, tiny); returns `section.leaf=value`
+pub fn odd_leaf(r: &mut Rng, d: &mut Desc) -> String {
+  let generic = |r: &mut Rng| *r.pick(&ODD_SCALARS);
+  let which = r.below(26);
+  let (name, v): (&str, f64) = match which {
+    0 => ("pump.spectrum_threshold", *r.pick(&[-1.0, -0.0, 0.0, 1e-300, 1e-9, 0.5, 0.999, 1.0, 1.03, 100.0, 1e300])),
+    1 | 2 => ("signal.waist_position_um", *r.pick(&[-1e300, -1e9, -1e6, -1e-9, -0.0, 0.0, 1e-300, 1.03, 1e6, 1e9, 1e300])),
+    3 | 4 => ("idler.waist_position_um", *r.pick(&[-1e300, -1e9, -1e6, -1e-9, -0.0, 0.0, 1e-300, 1.03, 1e6, 1e9, 1e300])),
+    5 => ("crystal.phi_deg", *r.pick(&[1e-300, -1e-9, -0.0, 359.99999999, 360.0000001, 1.03])),
+    6 => ("signal.phi_deg", *r.pick(&[1e-300, -1e-9, -0.0, 359.99999999, 360.0000001, 1.03])),
+    7 => ("idler.phi_deg", *r.pick(&[1e-300, -1e-9, -0.0, 359.99999999, 360.0000001, 1.03, -400.0, 400.0])),
+    8 => ("idler.waist_um", *r.pick(&[0.0, -100.0, 1e-9, 1.0, 1e6, 1e300])),
+    9 => ("idler.wavelength_nm", *r.pick(&[0.0, -1550.0, 1e-9, 1e9])),
+    10 => ("idler.theta_deg", *r.pick(&[-400.0, -90.0, -0.0, 1e-300, 1e-9, 89.9999, 90.0, 400.0])),
+    11 => ("crystal.temperature_c", *r.pick(&[1e-300, -1e-9, 499.9999, 500.0, 1e6, -273.15, -273.16, 1e300])),
+    12 => ("deff_pm_per_volt", *r.pick(&[-1e300, -1e4, -1e-6, 1e-300, 1e-9, 1e4, 1e300])),
+    13 => ("crystal.length_um", *r.pick(&[1e-300, 1.0, 1e9, 1e300, f64::MAX])),
+    14 => ("pump.waist_um", *r.pick(&[1e-300, 1.0, 1e9, 1e300, f64::MAX])),
+    15 => ("signal.waist_um", *r.pick(&[1e-300, 1.0, 1e9, 1e300, f64::MAX])),
+    16 => ("pump.bandwidth_nm", *r.pick(&[1e-300, 1e-3, 1e3, 1e9, 1e300])),
+    17 => ("pump.average_power_mw", *r.pick(&[1e-300, 1e-6, 1e9, 1e300])),
+    18 => ("periodic_poling.poling_period_um", *r.pick(&[1e-300, -1e300, 1e300, 1e-3, -1e-3, 1e6, -1e6])),
+    19 => ("pump.wavelength_nm", *r.pick(&[0.0, -775.0, 1e-9, 1e-300, 1e9, 1e300])),
+    20 => ("signal.wavelength_nm", *r.pick(&[0.0, -1550.0, 1e-9, 1e-300, 1e9, 1e300])),
+    _ => ("periodic_poling.apodization", generic(r)),
+  };
+  let explicit_idler = |r: &mut Rng, d: &mut Desc| {
+    if !matches!(d.idler, IdlerD::Cfg(_)) {
+      let mut i_wl = d.signal.wl * d.p_wl / (d.signal.wl - d.p_wl);
+      if !(i_wl.is_finite() && i_wl > 0.0) {
+        i_wl = 2.0 * d.p_wl; // (λs ≤ λp edits: any finite number — JSON cannot carry inf)
+      }
+      d.idler = IdlerD::Cfg(BeamD { wl: (i_wl * 100.).round() / 100., phi: Some(0.), theta: Some(dec(r, 0., 2., 3)), theta_e: None, waist: 100., wpos: AutoV::Auto });
+    }
+  };
+  let poled = |d: &mut Desc| {
+    if !matches!(d.poling, PolingD::Cfg { .. }) {
+      d.poling = PolingD::Cfg { period: AutoV::Val(20.), apod: None };
+    }
+    if matches!(d.c_theta, AutoV::Auto | AutoV::Absent) {
+      d.c_theta = AutoV::Val(90.);
+    }
+  };
+  match name {
+    "pump.spectrum_threshold" => d.p_thr = Some(v),
+    "signal.waist_position_um" => d.signal.wpos = AutoV::Val(v),
+    "idler.waist_position_um" => {
+      explicit_idler(r, d);
+      if let IdlerD::Cfg(b) = &mut d.idler {
+        b.wpos = AutoV::Val(v)
+      }
+    }
+    "crystal.phi_deg" => d.c_phi = Some(v),
+    "signal.phi_deg" => d.signal.phi = Some(v),
+    "idler.phi_deg" | "idler.waist_um" | "idler.wavelength_nm" | "idler.theta_deg" => {
+      explicit_idler(r, d);
+      if let IdlerD::Cfg(b) = &mut d.idler {
+        match name {
+          "idler.phi_deg" => b.phi = Some(v),
+          "idler.waist_um" => b.waist = v,
+          "idler.wavelength_nm" => b.wl = v,
+          _ => {
+            b.theta = Some(v);
+            b.theta_e = None;
+          }
+        }
+      }
+    }
+    "crystal.temperature_c" => d.temp = v,
+    "deff_pm_per_volt" => d.deff = v,
+    "crystal.length_um" => d.length = v,
+    "pump.waist_um" => d.p_waist = v,
+    "signal.waist_um" => d.signal.waist = v,
+    "pump.bandwidth_nm" => d.p_bw = v,
+    "pump.average_power_mw" => d.p_power = v,
+    "periodic_poling.poling_period_um" => {
+      poled(d);
+      if let PolingD::Cfg { period, .. } = &mut d.poling {
+        *period = AutoV::Val(v)
+      }
+    }
+    "pump.wavelength_nm" => d.p_wl = v,
+    "signal.wavelength_nm" => d.signal.wl = v,
+    _ => {
+      poled(d);
+      let (a, tag) = gen_odd_apod(r);
+      if let PolingD::Cfg { apod, .. } = &mut d.poling {
+        *apod = Some(a);
+      }
+      return format!("periodic_poling.apodization={}", tag);
+    }
+  }
+  format!("{}={:e}", name, v)
 }
 
 // ------------------------------------------------------------------------------------------------
@@ -1079,13 +1339,82 @@ fn physical(d: &Desc) -> bool {
   if let IdlerD::Cfg(b) = &d.idler {
     ok = ok && len(b.waist);
   }
-  if let PolingD::Cfg { period: AutoV::Val(p), apod } = &d.poling {
+  if let PolingD::Cfg { period: AutoV::Val(p), .. } = &d.poling {
     ok = ok && p.abs() >= 1e-3 && p.abs() <= 1e6;
-    if let Some(ApodD::Gaussian(f)) = apod {
-      ok = ok && *f > 0.0;
-    }
   }
   ok
+}
+
+/// The spectrum / rate / HOM clause asks for finite VALUES, so the parameters the values are proportional to
+/// (or divided by) have to be inside their physical ranges as well: a poling profile that is bounded and does
+/// not vanish or cancel along the crystal (like `deff = 0`, a net-zero profile is no down-conversion at all:
+/// every normalised value is 0/0), a window at least a thousandth of the crystal wide, a non-zero Gaussian
+/// width, a pump-spectrum cut below the peak, waist positions and a nonlinearity of bounded magnitude.
+/// Construction (no panic, finite setup, listed errors) is checked for every value.
+fn spectra_domain(d: &Desc) -> bool {
+  let mut ok = d.deff.abs() <= 1e4 && d.p_thr.map(|t| t < 1.0).unwrap_or(true);
+  // (upper ends of the physical ranges: a metre of crystal and of beam waist, 100 nm of bandwidth and a quarter of
+  // the pump wavelength, a kilowatt)
+  ok = ok && d.length <= 1e6 && d.p_waist <= 1e6 && d.signal.waist <= 1e6 && d.p_bw <= 100.0 && d.p_bw <= 0.25 * d.p_wl && d.p_power <= 1e6;
+  if let IdlerD::Cfg(b) = &d.idler {
+    ok = ok && b.waist <= 1e6;
+  }
+  let pos = |a: &AutoV| match a {
+    AutoV::Val(x) => x.abs() <= 1e6,
+    _ => true,
+  };
+  ok = ok && pos(&d.signal.wpos);
+  if let IdlerD::Cfg(b) = &d.idler {
+    ok = ok && pos(&b.wpos);
+  }
+  if let PolingD::Cfg { apod: Some(a), .. } = &d.poling {
+    ok = ok
+      && match a {
+        ApodD::Off => true,
+        ApodD::Gaussian(f) => f.abs() >= 1e-3 * d.length && f.is_finite(),
+        ApodD::Named(_, x) => x.abs() >= 1e-3 && x.is_finite() && !window_integral_vanishes(a),
+        ApodD::Interpolate(v) => {
+          let n = v.len();
+          if n == 0 {
+            true
+          } else {
+            let mx = v.iter().fold(0.0f64, |m, x| m.max(x.abs()));
+            // trapezoid mean of the piecewise-linear profile
+            let mean = if n == 1 { v[0] } else { (v.iter().sum::<f64>() - 0.5 * (v[0] + v[n - 1])) / (n - 1) as f64 };
+            mx <= 1e3 && mx >= 1e-3 && mean.abs() >= 0.05 * mx
+          }
+        }
+      };
+  }
+  ok
+}
+
+/// the window's mean over the crystal (Simpson, 200 panels) is below 1 % of its largest magnitude
+fn window_integral_vanishes(a: &ApodD) -> bool {
+  let f = |z: f64| match a {
+    ApodD::Named(k, x) => {
+      use std::f64::consts::PI;
+      match k.to_lowercase().as_str() {
+        "bartlett" => 1. - z.abs() / x,
+        "blackman" => 21. / 50. + 0.5 * (PI * z / x).cos() + (2. / 25.) * (2. * PI * z / x).cos(),
+        "connes" => (1. - (z / x).powi(2)).powi(2),
+        "cosine" => (0.5 * PI * z / x).cos(),
+        "hamming" => (27. + 23. * (PI * z / x).cos()) / 50.,
+        _ => 1. - (z / x).powi(2),
+      }
+    }
+    _ => 1.0,
+  };
+  let n = 400;
+  let (mut sum, mut mx) = (0.0, 0.0f64);
+  for k in 0..=n {
+    let z = -1.0 + 2.0 * k as f64 / n as f64;
+    let w = if k == 0 || k == n { 1.0 } else if k % 2 == 1 { 4.0 } else { 2.0 };
+    let y = f(z);
+    sum += w * y;
+    mx = mx.max(y.abs());
+  }
+  !(sum.abs() / (3.0 * n as f64) >= 0.01 * mx)
 }
 
 fn in_window(d: &Desc, need_idler: bool) -> bool {
@@ -1256,7 +1585,9 @@ fn spectra_finite(s: &SPDC) -> Result<(), String> {
   let mut bad = vec![];
   let jsa = sp.jsa_range(range);
   // the HOM rate is normalised by Σ|jsa|² over the grid
-  let all_zero = spdcalc::jsi_norm(&jsa) == 0.;
+  // (the HOM calls evaluate the spectrum on the grid converted to frequency space — not the same points)
+  let fgrid: spdcalc::jsa::FrequencySpace = range.into();
+  let all_zero = spdcalc::jsi_norm(&jsa) == 0. || spdcalc::jsi_norm(&sp.jsa_range(fgrid)) == 0.;
   if jsa.iter().any(|z| !z.re.is_finite() || !z.im.is_finite()) {
     bad.push("jsa");
   }
@@ -1390,6 +1721,131 @@ fn part_conversions(s: &SPDC, c1: &SPDCConfig) -> Result<(), String> {
     Ok(())
   } else {
     Err(bad.join(" ; "))
+  }
+}
+
+/// setup -> configuration on apodizations (and polings, setups) that were built DIRECTLY, not from a
+/// configuration: every kind, every table shape; each public route must carry the setup's values
+fn apod_direct_cases(ctx: &mut Ctx) {
+  let mut list: Vec<(Apodization, String)> = vec![
+    (Apodization::Off, "off".into()),
+    (Apodization::Gaussian { fwhm: 1234.5678 * MICRO * M }, "gaussian".into()),
+    (Apodization::Gaussian { fwhm: 1004.07 * MICRO * M }, "gaussian".into()),
+    (Apodization::Gaussian { fwhm: 0.123456789e-3 * M }, "gaussian-unrounded".into()),
+    (Apodization::Bartlett(1.25), "bartlett".into()),
+    (Apodization::Blackman(0.875), "blackman".into()),
+    (Apodization::Connes(1.5), "connes".into()),
+    (Apodization::Cosine(2.0), "cosine".into()),
+    (Apodization::Hamming(0.7), "hamming".into()),
+    (Apodization::Welch(1.125), "welch".into()),
+    // window parameters are carried over unrounded
+    (Apodization::Bartlett(1.234567890123), "bartlett-unrounded".into()),
+    (Apodization::Welch(0.1 + 0.2), "welch-unrounded".into()),
+    // the crate's own tables
+    (Apodization::Interpolate(vec![0., 0., 0., 0., 0., 0., 1., 1., 1., 1., 1., 1.]), "interpolate/crate-step".into()),
+    (Apodization::Interpolate(vec![0., 0., 0.5, 1., 1., 1., 1., 0.5, 0., 0.]), "interpolate/padded-flat-top".into()),
+    // unrounded samples are carried over as they are
+    (Apodization::Interpolate(vec![0.1 + 0.2, 1.0 / 3.0, 1.0 / 3.0, 0.123456789012345]), "interpolate/unrounded".into()),
+  ];
+  let reps = if ctx.thorough { 40 } else { 4 };
+  for _ in 0..reps {
+    for shape in 0..INTERP_SHAPES {
+      let (v, name) = interp_table_of_shape(&mut ctx.rng, shape);
+      list.push((Apodization::Interpolate(v), format!("interpolate/{}", name)));
+    }
+  }
+  let round4 = |x: f64| (x * 1e4).round() / 1e4;
+  // what the configuration must hold for a setup's apodization
+  let carried = |a: &Apodization, c: &ApodizationConfig| -> bool {
+    match (a, c) {
+      (Apodization::Gaussian { fwhm }, ApodizationConfig::Gaussian { fwhm_um }) => {
+        let phys = fwhm.value_unsafe / 1e-6;
+        *fwhm_um == round4(phys) || ((fwhm_um - phys).abs() <= 0.5e-4 * (1.0 + 1e-6) && round4(*fwhm_um) == *fwhm_um)
+      }
+      (Apodization::Gaussian { .. }, _) | (_, ApodizationConfig::Gaussian { .. }) => false,
+      (a, c) => apod_tokens(a) == apod_cfg_tokens(c),
+    }
+  };
+  let base = SPDC::default();
+  for (a, name) in list.iter() {
+    ctx.count(&format!("config/direct-apodization={}", name));
+    let det = format!("shape={} setup_apodization={}", name, apod_tokens(a).replace(' ', ","));
+    let mut bad: Vec<String> = vec![];
+    let c = guard(|| ApodizationConfig::from(a.clone()));
+    match &c {
+      Some(c) if carried(a, c) => {}
+      Some(c) => bad.push(format!("route=ApodizationConfig::from(Apodization) got={}", apod_cfg_tokens(c).replace(' ', ","))),
+      None => bad.push("route=ApodizationConfig::from(Apodization) panic".into()),
+    }
+    for (period_um, sign) in [(46.52, Sign::POSITIVE), (9.25, Sign::NEGATIVE)] {
+      let pp = PeriodicPoling::On { period: period_um * MICRO * M, sign, apodization: a.clone() };
+      match guard(|| PeriodicPolingConfig::from(pp.clone())) {
+        Some(PeriodicPolingConfig::Config { poling_period_um: AutoCalcParam::Param(p), apodization }) if p == period_um && carried(a, &apodization) => {}
+        Some(other) => bad.push(format!("route=PeriodicPolingConfig::from(PeriodicPoling) got={}", serde_json::to_string(&other).unwrap_or_default().replace(' ', ""))),
+        None => bad.push("route=PeriodicPolingConfig::from(PeriodicPoling) panic".into()),
+      }
+      // a whole setup that holds this poling
+      let mut s = base.clone();
+      s.pp = pp.clone();
+      k_as_config(ctx, &s);
+      match guard(|| (s.clone().as_config(), SPDCConfig::from(s.clone()), serde_json::to_value(&s).ok())) {
+        Some((c1, c2, js)) => {
+          for (route, cfg) in [("SPDC::as_config", &c1), ("SPDCConfig::from(SPDC)", &c2)] {
+            match &cfg.periodic_poling {
+              PeriodicPolingConfig::Config { apodization, .. } if carried(a, apodization) => {}
+              other => bad.push(format!("route={} got={}", route, serde_json::to_string(other).unwrap_or_default().replace(' ', ""))),
+            }
+          }
+          if js != serde_json::to_value(&c1).ok() {
+            bad.push("route=serde(SPDC) differs-from-as_config".into());
+          }
+          // and back: the setup rebuilt from that configuration holds the same apodization
+          match guard(|| c1.clone().try_as_spdc().ok()).flatten() {
+            Some(s2) => {
+              let same = match (a, s2.pp.apodization()) {
+                (Apodization::Gaussian { fwhm: x }, Apodization::Gaussian { fwhm: y }) => (x.value_unsafe - y.value_unsafe).abs() <= 0.5e-10 * (1.0 + 1e-6),
+                (x, y) => apod_tokens(x) == apod_tokens(y),
+              };
+              if !same {
+                bad.push(format!("route=as_config->try_as_spdc rebuilt={}", apod_tokens(s2.pp.apodization()).replace(' ', ",")));
+              }
+            }
+            None => bad.push("route=as_config->try_as_spdc failed".into()),
+          }
+        }
+        None => bad.push("route=SPDC::as_config panic".into()),
+      }
+    }
+    // serde of the apodization itself goes through its configuration, both ways
+    match guard(|| serde_json::to_value(a).ok()).flatten() {
+      Some(js) => {
+        if Some(&js) != c.as_ref().and_then(|c| serde_json::to_value(c).ok()).as_ref() {
+          bad.push(format!("route=serde(Apodization) text={}", js.to_string().replace(' ', "")));
+        }
+        match guard(|| serde_json::from_value::<Apodization>(js.clone()).ok()).flatten() {
+          Some(back) => {
+            let same = match (a, &back) {
+              (Apodization::Gaussian { fwhm: x }, Apodization::Gaussian { fwhm: y }) => (x.value_unsafe - y.value_unsafe).abs() <= 0.5e-10 * (1.0 + 1e-6),
+              (x, y) => x == y,
+            };
+            if !same {
+              bad.push(format!("route=serde(Apodization)->Apodization back={}", apod_tokens(&back).replace(' ', ",")));
+            }
+          }
+          None => bad.push("route=serde(Apodization)->Apodization failed".into()),
+        }
+      }
+      None => bad.push("route=serde(Apodization) failed".into()),
+    }
+    // configuration -> setup carries the values too (both `From` impls are each other's inverse on windows and tables)
+    if let Some(c) = &c {
+      if !matches!(a, Apodization::Gaussian { .. }) {
+        if guard(|| Apodization::from(c.clone())).as_ref() != Some(a) {
+          bad.push("route=Apodization::from(ApodizationConfig)".into());
+        }
+      }
+    }
+    ctx.s("C16.fields", bad.is_empty(), "as_config/apodization-direct", &format!("{} {}", bad.iter().map(|b| b.replace(' ', "_")).collect::<Vec<_>>().join(" ; "), det));
   }
 }
 
@@ -1530,6 +1986,38 @@ fn c16_case(ctx: &mut Ctx, d: &Desc) {
     },
     Some(Err(e)) => ctx.s("C16.fixpoint", false, "roundtrip/second-conversion-err", &format!("err={:?} {}", e.0, det)),
     None => ctx.s("C16.fixpoint", false, "roundtrip/second-conversion-panic", &det),
+  }
+  // the setup rebuilt from the configuration has the same poling profile along the crystal: windows and
+  // tables are carried verbatim, so every sample position (and the nodes of a table of any length) agrees
+  if let PeriodicPoling::On { apodization, .. } = &s.pp {
+    if !matches!(apodization, Apodization::Gaussian { .. }) {
+      let r = guard(|| {
+        let s2 = c1.clone().try_as_spdc().ok()?;
+        let n = match apodization {
+          Apodization::Interpolate(v) => v.len(),
+          _ => 0,
+        };
+        let mut zs: Vec<f64> = (0..=16).map(|k| -1.0 + k as f64 / 8.0).collect();
+        if n > 1 {
+          zs.extend((0..n).map(|k| (-1.0 + 2.0 * k as f64 / (n - 1) as f64).clamp(-1.0, 1.0)));
+        }
+        for z in zs {
+          let a = s.pp.integration_constant(z, s.crystal_setup.length);
+          let b = s2.pp.integration_constant(z, s2.crystal_setup.length);
+          if !(a == b || (a - b).abs() <= 1e-12 * a.abs().max(b.abs())) {
+            return Some(Err(format!("z={:?} first={:?} second={:?} first_table_len={} second={}", z, a, b, n, apod_tokens(s2.pp.apodization()).replace(' ', ","))));
+          }
+        }
+        Some(Ok(()))
+      });
+      match r {
+        Some(Some(Ok(()))) => ctx.s("C16.fixpoint", true, "roundtrip/apodization-profile", &det),
+        Some(Some(Err(why))) => ctx.s("C16.fixpoint", false, "roundtrip/apodization-profile", &format!("{} {}", why, det)),
+        // second conversion failing is reported by roundtrip/second-conversion-*; a panic in the profile is not
+        Some(None) => {}
+        None => ctx.s("C16.fixpoint", false, "roundtrip/apodization-profile-panic", &det),
+      }
+    }
   }
   match guard(|| part_conversions(&s, &c1)) {
     Some(Ok(())) => ctx.s("C16.fields", true, "as_config/part-conversions", &det),
@@ -1702,7 +2190,7 @@ fn c17_case(ctx: &mut Ctx, d: &Desc, tag: &str, spectra: bool) {
     Some(Ok(_)) => "ok",
   };
   ctx.count(&format!("malformed/outcome={}", class));
-  ctx.count(&format!("malformed/edit={}", tag));
+  ctx.count(&format!("malformed/edit={}", tag.split(':').next().unwrap_or("")));
   // from_json must give the same class as try_as_spdc
   let fj = guard(|| SPDC::from_json(d.json().to_string()).is_ok());
   let same = match (&run.outcome, fj) {
@@ -1748,7 +2236,8 @@ fn c17_case(ctx: &mut Ctx, d: &Desc, tag: &str, spectra: bool) {
           Some(Err(why)) => ctx.s("C17.finite", false, &cls("setup/non-finite"), &format!("bad={} {}", why, det)),
           None => ctx.s("C17.finite", false, &cls("setup/getter-panic"), &det),
         }
-        if spectra {
+        ctx.count(&format!("malformed/spectra-domain={}", spectra_domain(d)));
+        if spectra && spectra_domain(d) {
           clear_panic_site();
           match guard(|| spectra_finite(s)) {
             Some(Ok(())) => ctx.s("C17.spectra", true, "spectra/finite", &det),
@@ -1906,6 +2395,30 @@ pub fn run(ctx: &mut Ctx) {
         c16_case(ctx, &d);
       }
     }
+    // every interpolation-table shape (hand-made profiles: padding, flat tops, steps, constant, single, empty,
+    // long) with an "auto" and an explicit period on the documented KTP setup
+    for rep in 0..(if ctx.thorough { 6 } else { 2 }) {
+      for shape in 0..INTERP_SHAPES {
+        let (v, name) = interp_table_of_shape(&mut ctx.rng, shape);
+        ctx.count(&format!("config/interpolate-shape={}", name));
+        let mut d = gen_valid(&mut ctx.rng);
+        d.kind = 1;
+        d.pm = 3;
+        d.pm_spelling = "e->eo".into();
+        d.c_phi = Some(0.);
+        d.c_theta = AutoV::Val(90.);
+        d.length = 14000.;
+        d.cp = None;
+        d.p_wl = 775.;
+        d.signal.wl = 1550.;
+        d.signal.theta = None;
+        d.signal.theta_e = Some(0.);
+        d.idler = IdlerD::Auto;
+        d.poling = PolingD::Cfg { period: if rep % 2 == 0 { AutoV::Auto } else { AutoV::Val(46.52) }, apod: Some(ApodD::Interpolate(v)) };
+        c16_case(ctx, &d);
+      }
+    }
+    apod_direct_cases(ctx);
     // explicit periods of both signs on setups whose phase mismatch asks for either sign:
     // types 0/1/2, 0° and 90° cuts, counter-propagation on/off
     let setups: [(usize, usize, &str, f64, f64); 8] = [
@@ -1955,6 +2468,11 @@ pub fn run(ctx: &mut Ctx) {
       if k % 4 == 3 {
         widen(&mut ctx.rng, &mut d);
         ctx.count("config/widened");
+      }
+      if k % 4 == 1 {
+        if let Some(shape) = structure_apod(&mut ctx.rng, &mut d) {
+          ctx.count(&format!("config/interpolate-shape={}", shape));
+        }
       }
       c16_case(ctx, &d);
       if ctx.rng.below(4) == 0 {
@@ -2065,6 +2583,67 @@ pub fn run(ctx: &mut Ctx) {
         e.poling = PolingD::Cfg { period: AutoV::Auto, apod: None };
         c17_case(ctx, &e, "two-step-auto-angle-then-auto-period", false);
       }
+    }
+    // every numeric leaf of the nested apodization section outside its usual range (all nine kinds: negative, zero,
+    // above 1, percent, huge, tiny, empty / single / long tables) on poled setups: construction is Ok or Err, never
+    // a panic; spectra on the setups whose profile is bounded and does not cancel
+    let napod = if ctx.thorough { ctx.n / 8 } else { ctx.n / 6 };
+    let napod_spec = if ctx.thorough { 500 } else { 40 };
+    for k in 0..napod {
+      let mut d = gen_valid(&mut ctx.rng);
+      if k % 3 == 0 {
+        // the documented PPKTP source
+        d.kind = 1;
+        d.pm = 3;
+        d.pm_spelling = "e->eo".into();
+        d.c_phi = Some(0.);
+        d.length = 14000.;
+        d.cp = None;
+        d.p_wl = 775.;
+        d.signal.wl = 1550.;
+        d.signal.theta = None;
+        d.signal.theta_e = Some(0.);
+        d.idler = IdlerD::Auto;
+      }
+      if matches!(d.c_theta, AutoV::Auto | AutoV::Absent) || k % 3 == 0 {
+        d.c_theta = AutoV::Val(90.);
+      }
+      let (a, tag) = gen_odd_apod(&mut ctx.rng);
+      let period = match &d.poling {
+        PolingD::Cfg { period, .. } if k % 3 != 0 => period.clone(),
+        _ => {
+          if ctx.rng.below(3) == 0 {
+            AutoV::Val(46.1)
+          } else {
+            AutoV::Auto
+          }
+        }
+      };
+      d.poling = PolingD::Cfg { period, apod: Some(a.clone()) };
+      ctx.count(&format!("malformed/odd-apodization={}", tag.split('/').next().unwrap_or("")));
+      c17_case(ctx, &d, &format!("odd-apodization:{}", tag), k < napod_spec);
+      // the section on its own: deserialising an `Apodization` / a `PeriodicPolingConfig`, and the typed conversion
+      let js = apod_json(&a);
+      let r1 = guard(|| serde_json::from_value::<Apodization>(js.clone()).is_ok());
+      let r2 = guard(|| serde_json::from_value::<ApodizationConfig>(js.clone()).map(Apodization::from).is_ok());
+      ctx.s(
+        "C17.no_panic",
+        r1.is_some() && r2.is_some() && r1 == r2,
+        "construct/apodization-section",
+        &format!("deserialize_apodization={:?} deserialize_config_then_from={:?} section={}", r1, r2, js.to_string().replace(' ', "")),
+      );
+    }
+    // one numeric leaf of any nested section outside its usual range, on top of a valid (3 in 4) or malformed descriptor
+    for k in 0..ctx.n / 3 {
+      let (mut d, mut tag) = if k % 4 == 3 { gen_malformed(&mut ctx.rng) } else { (gen_valid(&mut ctx.rng), String::new()) };
+      let leaf = odd_leaf(&mut ctx.rng, &mut d);
+      if !tag.is_empty() {
+        tag.push('+');
+      }
+      tag.push_str("odd-leaf:");
+      tag.push_str(&leaf);
+      ctx.count(&format!("malformed/odd-leaf={}", leaf.split('=').next().unwrap_or("")));
+      c17_case(ctx, &d, &tag, k % 8 == 0);
     }
     // short crystals with auto period
     for _ in 0..ctx.n / 4 {
